@@ -6,6 +6,42 @@ HERE = os.path.dirname(os.path.dirname(os.path.abspath(__file__)))
 PROPS = [json.loads(l)['id'] for l in open(os.path.join(HERE, 'properties.jsonl'))]
 
 CHECKS = {
+ 'C08': dict(category='other', design_ref='DESIGN.md section 4 (C08 / C09 / C10 / C14)',
+    text='Partial proof + bounded. Proved (pyvc VCs, z3): Parser._accept -- the one function through which the cursor ever advances '
+         '(a scan of the class shows every other write of the cursor restores a position saved in the same function) -- meets its '
+         'specification for every token list, position, pattern and fence: it skips only trivia that does not match, returns the '
+         'first candidate iff it matches and lies before the short-if fence leaving the cursor just after it, otherwise returns None '
+         'with the cursor restored, and terminates. The short-if fence computed inside Parser._stat is proved to be the first newline '
+         'token at or after the condition (or the end of the code) -- so the body may reach exactly to the end of its line, comments '
+         'included -- and is installed for the body and removed in a finally clause.',
+    note='Bounded (never counted as proved): completeness and tree adequacy -- programs generated from an independent reference grammar '
+         '(every statement kind first/middle/last and inside every block-bearing statement, then random programs) x 6 layouts through '
+         'the real lexer and parser: accepted, consumed to the last token, tree == derivation with operators/operands in source order, '
+         'short-if extents. Nested short-ifs and `?x,y` are outside the dialect.',
+    technique='contract-based deductive verification of the cursor primitive and the short-if fence region (pyvc VCs, z3) + bounded enumeration from a reference grammar'),
+ 'C09': dict(category='other', design_ref='DESIGN.md section 4 (C08 / C09 / C10 / C14)',
+    text='Partial proof + bounded. Proved: the token-cursor helper _get_code_for_spaces consumes exactly the maximal trivia run at the '
+         'cursor (bounded by the node / the list) and returns those tokens\' codes; the end-of-input check at the head of '
+         'LuaASTEchoWriter.to_lines -- inherited by luafmt and every other tree-driven writer -- raises ParserError iff a non-trivia '
+         'token lies at or after the position where the parser stopped, for every token list and stopping point (no silent loss); '
+         'every yield of every _walk_* handler is a cursor-helper result, an item of a nested walk or a token\'s own code with a cursor '
+         'step (scan of all 156 yields), and _get_text / _get_name assert the token under the cursor before stepping over it.',
+    note='Bounded (never counted as proved): that luafmt succeeds on every valid program and reproduces every token -- reference-grammar '
+         'programs x 6 layouts x indent widths: tokens and comments identical under the reference tokenizer, output parses to the same '
+         'tree (line-scoped constructs keep their extent), token count unchanged; and the three tree-driven writers on '
+         'lexable-but-unparsed inputs must raise or keep every token.',
+    technique='contract-based deductive verification of the writer cursor helper and the end-of-input region (pyvc VCs, z3) + emission scan + bounded enumeration from a reference grammar'),
+ 'C10': dict(category='other', design_ref='DESIGN.md section 4 (C08 / C09 / C10 / C14)',
+    text='Partial proof + bounded. Proved on ALL control paths of every _walk_* handler (enumerated from the real ast, branches on the '
+         'same flag kept consistent): _indent is raised by one right after an opening token is emitted, lowered by one right before '
+         'the closing token, never below its entry value, and restored when the handler finishes; nothing else writes _indent and a '
+         'token on its own line is indented by indentwidth x _indent. Hence the depth used for indentation equals the number of '
+         'blocks and brackets open at the token, a closing token counting as closed.',
+    note='Bounded (never counted as proved): the regular-expression pipeline of the formatter is outside the solvers\' reach. '
+         'Reference-grammar programs, one statement per line, in groups of layouts with the same line breaks (re-indented, tabs, '
+         'trailing blanks, CRLF, blank-run lengths, -- and // comment lines) x indent widths: one output per group, fixed point, no '
+         'trailing whitespace, at most one blank line, none at the end, indentation == indentwidth x independently recomputed depth.',
+    technique='path-complete verification of the indentation bookkeeping contract over the real handlers + bounded canonical-form enumeration'),
  'C03': dict(category='proof', design_ref='DESIGN.md section 4 (C03)',
     text='Every section writer and reader (gfx, gff/map hex rows, sfx, music) is proved equal to the P8Spec text / bytes functions '
          '(contracts shared with C16, re-discharged here), and on top of them spec-level lemmas are discharged by z3 for ALL region '
